@@ -47,7 +47,7 @@ structure Cfg where
   /-- clock ticks per second. -/
   tps : Int
   /-- CODE VARIANT FLAG. `true`: `advance` and `reset` call `get_time()` *before* `with self._lock`
-  (rich 9.10.0 as it stands); `false`: the read is the first statement under the lock (repair). -/
+  (rich 9.10.0 as found); `false`: the read is the first statement under the lock (repair: fix b790bf0, what /repo contains now). -/
   clockOutside : Bool
 deriving Repr
 
